@@ -14,9 +14,10 @@ import (
 
 func init() {
 	fw.Register(&fw.Property{
-		ID:     "C13",
-		Level:  "exploration",
-		Jitter: true,
+		ID:         "C13",
+		Level:      "exploration",
+		Jitter:     true,
+		RaceSample: true,
 		Rule: "snps, variants and sam variants inputs with 1-30 sequences engineered so that mutations recur in k of n sequences; thresholds {0, 1, an occurring frequency passed as the same float64, just above / just below it}; --append-snps on/off; reference record inside the MSA (must not count) or taken from the annotation; two observed runs per case (per-sequence and --aggregate) related by counting; " +
 			"distinct non-trivial = distinct (command, n, threshold kind, append-snps, number of distinct mutations class, a mutation at the threshold boundary present)",
 		Assumptions: []string{"order is judged as: each line has a position interval (nuc/ins/del: its number; aa: the codon's positions) and the observed sequence must admit a non-decreasing choice",
